@@ -140,3 +140,25 @@ def scripts_of(r):
             seen.add(s)
             out.append(json.loads(s[7:]))
     return out
+
+
+def alias_reuse_scenarios(tag):
+    """the broker hands the stream alias of a closed upstream to the next one (conn.aliasReuse): the second stream gets its own
+    acknowledgements; judged by MonC01 on the second upstream (p.track = "u2")."""
+    scs = []
+    for k, n in enumerate((1, 2, 3)):
+        steps = [{"a": "connect", "must": True}, {"a": "openUp", "obj": "U1", "qos": "reliable", "policy": {"k": "none"}, "must": True, "closeTimeoutMs": 1500}]
+        w = lambda obj, t: [{"a": "write", "g": "W", "obj": obj, "id": "AB"[t % 2], "pts": [[t, 8]], "ctxMs": 2000, "wait": True},
+                            {"a": "flush", "g": "W", "obj": obj, "ctxMs": 2000, "wait": True}]
+        for t in range(1, n + 1):
+            steps += w("U1", t)
+        steps += [{"a": "ack", "obj": "U1", "all": True}, {"a": "await", "ev": "HookAfter", "match": {"sid": "u1", "seq": n}, "ms": 1500, "must": True},
+                  {"a": "closeUp", "g": "C", "obj": "U1", "ctxMs": 3000, "wait": True},
+                  {"a": "openUp", "obj": "U2", "qos": "reliable", "policy": {"k": "none"}, "must": True, "closeTimeoutMs": 1500}]
+        for t in range(11, 11 + n):
+            steps += w("U2", t)
+        steps += [{"a": "join", "obj": "W"}, {"a": "ack", "obj": "U2", "all": True}, {"a": "sleep", "ms": 100},
+                  {"a": "closeUp", "g": "C", "obj": "U2", "ctxMs": 3000}, {"a": "ackUntilIdle", "obj": "U2", "src": "C", "ms": 3000}, {"a": "join", "obj": "C"},
+                  {"a": "quiesce"}, {"a": "closeConn", "g": "X", "ctxMs": 2000, "wait": True}, {"a": "quiesce", "ms": 50}]
+        scs.append({"id": "%s/aliasReuse/%d" % (tag, k), "kind": "iscp", "conn": {"aliasReuse": True}, "p": {"track": "u2"}, "steps": steps})
+    return scs
